@@ -6,6 +6,8 @@ package main
 //   parent-* flow_action trigger whose parent run summary is read by templates after a wait (prepareForSprint
 //            re-derives session.parentRun from the trigger)
 //   nested-* a parent with two successive children, the second of which waits (parent links by UUID)
+//   exited-child-flow  templates reading the flow of an exited child / exited parent after a restart; msg trigger with
+//            a keyword match built through the builder API (mutation trials M13, M14 in checks/C02.mutations.md)
 
 import (
 	"encoding/json"
@@ -109,6 +111,17 @@ func corpusScenarios() []*Scenario {
 			flowDef(3, actionNode(301, 302, map[string]any{"type": "enter_flow", "flow": flowRefJSON(2)}), waitNode(302, 303),
 				actionNode(303, 0, map[string]any{"type": "send_msg", "text": "in 3: p=@parent.run.status c=@child.results.r0 i=@input.text"}))},
 			manual(false), []json.RawMessage{msg(0, "a"), msg(1, "b")}},
+		{"exited-child-flow", []any{
+			flowDef(1, actionNode(101, 102, map[string]any{"type": "enter_flow", "flow": flowRefJSON(2)}), waitNode(102, 103),
+				actionNode(103, 104, map[string]any{"type": "send_msg", "text": "c=@child f=@child.flow.name s=@child.status r=@child.results.r0.value"}), waitNode(104, 105),
+				actionNode(105, 0, map[string]any{"type": "enter_flow", "flow": flowRefJSON(3), "terminal": true})),
+			flowDef(2, actionNode(201, 0, map[string]any{"type": "set_run_result", "name": "r0", "value": "from child"})),
+			flowDef(3, waitNode(301, 302), actionNode(302, 0, map[string]any{"type": "send_msg", "text": "p=@parent f=@parent.flow.name s=@parent.status k=@trigger.keyword"}))},
+			map[string]any{"type": "msg", "flow": flowRefJSON(1), "contact": contact, "triggered_on": "2019-12-31T11:40:30.123456789-00:00",
+				"msg": map[string]any{"uuid": "9bf91c2b-ce58-4cef-aacc-000000000000", "text": "a b", "urn": "tel:+12024561111", "external_id": "ext1",
+					"channel": map[string]any{"uuid": chanUUID, "name": "Android"}},
+				"keyword_match": map[string]any{"type": "first_word", "keyword": "a"}},
+			[]json.RawMessage{msg(0, "a"), msg(1, "b"), msg(2, "c")}},
 	}
 	var out []*Scenario
 	for idx, it := range items {
@@ -127,6 +140,9 @@ func corpusScenarios() []*Scenario {
 			},
 			NewEngine: func() flows.Engine { return serviceEngine(engine.NewBuilder()) },
 			MakeTrigger: func(sa flows.SessionAssets) (flows.Trigger, error) {
+				if t, err := buildTrigger(sa, it.trigger); t != nil || err != nil {
+					return t, err
+				}
 				return triggers.ReadTrigger(sa, trigJSON, assets.IgnoreMissing)
 			},
 			NumResumes: len(it.resumes),
